@@ -545,18 +545,25 @@ func (s *connectableObservableImpl[T]) ConnectWithContext(ctx context.Context) S
 	s.mu.Lock()
 	if s.subscription == nil || s.subscription.IsClosed() {
 		s.subscription = s.source.SubscribeWithContext(ctx, s.subject)
+		subscription := s.subscription
 		s.mu.Unlock()
 		verifPoint("connectable.connect.unlocked")
-		s.subscription.Add(func() {
+		subscription.Add(func() {
 			if s.config.ResetOnDisconnect {
+				// the current subject is read by Subscribe and Connect from other goroutines
+				s.mu.Lock()
 				s.subject = s.config.Connector()
+				s.mu.Unlock()
 			}
 		})
-	} else {
-		s.mu.Unlock()
+
+		return subscription
 	}
 
-	return s.subscription
+	subscription := s.subscription
+	s.mu.Unlock()
+
+	return subscription
 }
 
 func (s *connectableObservableImpl[T]) Subscribe(observer Observer[T]) Subscription {
@@ -564,5 +571,9 @@ func (s *connectableObservableImpl[T]) Subscribe(observer Observer[T]) Subscript
 }
 
 func (s *connectableObservableImpl[T]) SubscribeWithContext(ctx context.Context, observer Observer[T]) Subscription {
-	return s.subject.SubscribeWithContext(ctx, observer)
+	s.mu.Lock()
+	subject := s.subject
+	s.mu.Unlock()
+
+	return subject.SubscribeWithContext(ctx, observer)
 }
